@@ -77,6 +77,16 @@ Theorem C11_ftp_outside_untouched : forall root rs fs,
   Forall (fun r => Forall (inside root) (r_touched r)) rsps.
 Proof. exact run_from_login. Qed.
 
+(* in particular the root's ancestors (every proper prefix of its spelling: its parent, the
+   service directory, the base ...) are as before after ANY command sequence - also those
+   that empty the root and then remove (RMD /, RMD .., DELE /), rename or recreate the root
+   itself: the model's RMD removes exactly the resolved directory, nothing above it *)
+Theorem C11_ftp_root_ancestors_untouched : forall root rs fs,
+  clean_root root rs -> forall cmds k,
+  is_prefix k root = true -> k <> root ->
+  lookup (s_fs (fst (fst (run (init_sess fs root) cmds)))) k = lookup fs k.
+Proof. exact ancestors_untouched. Qed.
+
 (* the same from any reachable session state *)
 Theorem C11_ftp_invariant : forall root rs,
   clean_root root rs -> forall cmds s,
@@ -167,6 +177,14 @@ Example C11_cwd_escape_attempts :
   h_cwd (s_h s') = [47].
 Proof. vm_compute. repeat split. Qed.
 
+(* the client empties the root, removes it (RMD ..), and its lonely parent /srv stays *)
+Example C11_root_removed_parent_stays :
+  let fs := [([47;115;114;118], NDir); (ex_root, NDir); (ex_root ++ [47;97], NDir)] in
+  let '(s', rsps, fatal) := run (init_sess fs ex_root) [CRmd [97]; CRmd [46;46]; CRmd [47]; CMkd [47]] in
+  map r_codes rsps = [[250]; [250]; [550]; [257]] /\
+  lookup (s_fs s') [47;115;114;118] = Some NDir /\ lookup (s_fs s') ex_root = Some NDir.
+Proof. vm_compute. repeat split. Qed.
+
 Print Assumptions C11_clean_rooted_no_dotdot.
 Print Assumptions C11_real_path_shape.
 Print Assumptions C11_real_path_contained.
@@ -175,6 +193,7 @@ Print Assumptions C11_inside_descends.
 Print Assumptions C11_change_dir_stays_inside.
 Print Assumptions C11_cwd_invariant_all_histories.
 Print Assumptions C11_ftp_outside_untouched.
+Print Assumptions C11_ftp_root_ancestors_untouched.
 Print Assumptions C11_ftp_invariant.
 Print Assumptions C11_reported_cwd_inside.
 Print Assumptions C11_rooted_clean_b_correct.
